@@ -151,6 +151,21 @@ func (s *Sess) genHostile(lim Limits) *Op {
 		if r.Intn(3) == 0 {
 			op.H2 = op.H
 		}
+		if r.Intn(4) == 0 {
+			// a live directory and a handle of another incarnation of the same
+			// inode number, with names that exist
+			if d := s.pickObj(KDir); d != nil {
+				op.H = d.FH
+				alias := append([]byte{}, d.FH...)
+				alias[8] += byte(1 + r.Intn(3))
+				op.H2 = alias
+				op.Name = s.existingName(d.FH)
+				op.Name2 = s.existingName(d.FH)
+				if r.Intn(2) == 0 {
+					op.H, op.H2 = op.H2, op.H
+				}
+			}
+		}
 		s.avoidKnownRename(op)
 	case OpLink:
 		op.H2 = s.hostileHandle(lim)
